@@ -288,6 +288,25 @@ def _main(prop_id, args, seed, t0, scratch):
         if p and wit_status.get(p):
             violations_out.append((wit_status[p][0], p))
 
+    # ---- regression corpus: replays/<ID>/corpus-*.json ------------------------------------------
+    # saved generated cases that are not tied to a defect of the unchanged tree (e.g. the shrunk case with which a
+    # deeper tier caught an independently seeded change); replayed on every run, a failure is a violation.
+    cdir = os.path.join(core.VERIF_DIR, 'replays', prop_id)
+    corpus = sorted(os.path.join(cdir, f) for f in (os.listdir(cdir) if os.path.isdir(cdir) else [])
+                    if f.startswith('corpus-') and f.endswith('.json'))
+    if corpus:
+        res, _ = run_workers(prop_id, [{'kind': '__replay__', 'paths': [p], 'known_sigs': known_sigs} for p in corpus],
+                             scratch, 1800)
+        for p, r in zip(corpus, res):
+            r = r or {}
+            if r.get('harness_errors'):
+                print(f"HARNESS-ERROR property={prop_id} corpus {p}: {r['harness_errors'][0]}")
+                return 2
+            for sig in sorted(r.get('violations', {})):
+                if sig not in known_sigs:
+                    violations_out.append((sig, p))
+                    break
+
     # ---- generated search ---------------------------------------------------------------------
     tier = args.tier
     units = mod.units(tier, seed)
@@ -297,6 +316,8 @@ def _main(prop_id, args, seed, t0, scratch):
     timeout = getattr(mod, 'UNIT_TIMEOUT', {}).get(tier, 900 if tier == 'quick' else 6 * 3600)
     results, notes = run_workers(prop_id, units, scratch, timeout)
     m = merge(results)
+    if corpus:
+        notes.append(f"regression corpus: {len(corpus)} saved case(s) replayed ({', '.join(os.path.basename(c) for c in corpus)})")
 
     rc = 0
     if m['harness_errors']:
